@@ -238,7 +238,7 @@ def reg_values(rng, which):
         return [uuid.UUID(int=0), uuid.UUID(int=2**128 - 1), uuid.UUID(int=rng.getrandbits(128)), uuid.UUID("12345678-1234-5678-1234-567812345678")]
     if which == "timedelta":
         return [td(0), td(seconds=5), td(microseconds=1), td(milliseconds=500), td(days=1), td(days=-1), td(days=2, hours=3), td(hours=30), td(seconds=-1), td(microseconds=-1), td(days=-1, seconds=1), td(days=400, microseconds=5),
-                td(days=50000, microseconds=123456), td(days=999999999), td(days=-999999999), td(hours=1, minutes=2, seconds=3, microseconds=400), td(seconds=rng.randrange(10**7), microseconds=rng.randrange(10**6)), td(days=rng.randrange(-9, 9), seconds=rng.randrange(86400))]
+                td(days=50000, microseconds=123456), td(days=999999, microseconds=1), td(days=-999999, microseconds=1), td.max, td.min, td.min + td(microseconds=1), td(days=999999999), td(days=-999999999), td(hours=1, minutes=2, seconds=3, microseconds=400), td(seconds=rng.randrange(10**7), microseconds=rng.randrange(10**6)), td(days=rng.randrange(-9, 9), seconds=rng.randrange(86400))]
     if which == "bytes":
         return [b"abc", b"", b"\x00\xff", b"\xd7m\xf8", bytes(range(256)), b"\xd7\x7d\x74", bytes(rng.randrange(256) for _ in range(rng.randrange(1, 9))), b"\x35\xeb\x5d\x35", b"\xd5\xed\x74"]
     if which == "bytearray":
